@@ -54,7 +54,7 @@ class Group:
                  wrap_checks=False, kind="proof", timeout=900, bound=None,
                  must_fail=(), expect_classes=(), replay=None, tiers=("quick", "thorough"),
                  functions=(), extra_cbmc=(), note="", safety=True, assumed=(),
-                 drop_unused=False, object_bits=12, nondet_static=False):
+                 drop_unused=False, object_bits=None, nondet_static=False):
         self.name = name
         self.props = list(props)
         self.harness = harness
